@@ -344,11 +344,22 @@ theorem idTag_map (b : String) (xs : List String) (n : String)
       rw [← h]; simp
     · simp only [ht, Bool.false_eq_true, if_false] at hp
 
+theorem drop_take_append_map {α} (k : Nat) (l : List α) (f : α → α) :
+    (l.take k ++ (l.drop k).map f).drop k = (l.drop k).map f := by
+  rcases Nat.le_total k l.length with h | h
+  · rw [List.drop_append_of_le_length (by simp [h])]
+    simp [List.drop_eq_nil_of_le, h]
+  · simp [List.drop_eq_nil_of_le h, List.take_of_length_le h]
+
 theorem setName_name (b : String) (r : Rec) (n : String) (h : (setName b r).name = some n) : n = b := by
   unfold setName at h
-  cases hrt : r.rt <;> simp only [hrt, Rec.name, fld, ← List.map_drop, List.getD_cons_zero] at h
+  cases hrt : r.rt <;> simp only [hrt, Rec.name, fld, List.getD_cons_zero] at h
   all_goals first
-    | exact idTag_map b _ n h
+    | (have e5 : npos RT.L = 5 := rfl
+       have e6 : npos RT.C = 6 := rfl
+       first
+         | (rw [← e5, drop_take_append_map] at h; exact idTag_map b _ n h)
+         | (rw [← e6, drop_take_append_map] at h; exact idTag_map b _ n h))
     | (split at h <;> simp_all)
     | cases h
 theorem filterMap_congr' {α β} (l : List α) (f g : α → Option β) (h : ∀ x ∈ l, f x = g x) :
@@ -422,7 +433,8 @@ theorem rename_nodup (st st' : St) (a b : String) (h : NoDup st) (he : rename st
           unfold NoDup
           rw [names_eq]
           simp only []
-          rw [namesOf_rename st.lines i (setName b)
+          rw [namesOf_rename st.lines i
+            (fun r => setName b (renameOther (decide ((st.lines.getD i default).rt = .S)) a b r))
             (fun r _ => renameOther (decide ((st.lines.getD i default).rt = .S)) a b r)
             (fun r _ => renameOther_name _ a b r) hi]
           apply nodup_set st.lines i _ h hi
